@@ -90,7 +90,7 @@ def gen_snippet(r, idx):
 
 
 def gen_history(rngs, n_ops, fault_rate=0.3, fault_classes=None, io_ops=True, size=None, threaded_rate=0.0,
-                exotic_args=True):
+                exotic_args=True, before_after=False):
     from sim import seeds
     r = rngs[seeds.OPS]
     rf = rngs[seeds.FAULTS]
@@ -114,6 +114,11 @@ def gen_history(rngs, n_ops, fault_rate=0.3, fault_classes=None, io_ops=True, si
                 op['inputs'] = [r.choice(['1', 'x']) for _ in range(r.randint(0, 2))]
         elif c < 0.28:
             op = {'op': 'run', 'code': gen_snippet(r, i)}
+            if before_after and r.random() < 0.3:
+                if r.random() < 0.7:
+                    op['before'] = r.choice(["print('before')", "pre_marker = 1", "print('b', end='')"])
+                if r.random() < 0.7:
+                    op['after'] = r.choice(["print('after')", "post_marker = 2", "print()"])
         elif c < 0.62:
             fn = r.choice(sorted(LIB_FUNCS))
             op = {'op': 'call', 'fn': fn, 'args_src': [gen_arg(r, k, exotic_args) for k in LIB_FUNCS[fn]]}
